@@ -6,6 +6,7 @@ import (
 	"math/bits"
 	"sync"
 
+	"github.com/cronokirby/saferith"
 	"golang.org/x/sync/errgroup"
 
 	"github.com/bronlabs/bron-crypto/pkg/base/nt/num"
@@ -242,6 +243,7 @@ func (e *verifEnv) symNonce() (uint64, *Nonce) {
 	// (implied by the construction; stated on the read-back value so that the model's unit tests on
 	// it are decided syntactically)
 	verifAssume(e.isUnitBelow(verifNcVal(r), e.n) == 1)
+	verifMarkUnit(r.Value().Value().Value(), e.nn)
 	return verifNcVal(r), r
 }
 
@@ -250,7 +252,16 @@ func (e *verifEnv) symCt() (uint64, *Ciphertext) {
 	verifAssume(e.isUnitBelow(cv, e.nn) == 1)
 	c := e.ct(cv)
 	verifAssume(e.isUnitBelow(verifCtVal(c), e.nn) == 1)
+	verifMarkUnit(c.Value().Value().Value(), e.nn)
 	return verifCtVal(c), c
+}
+
+// verifMarkUnit tells the saferith model (ghost state; a no-op for the native twin) that the number
+// is coprime to m - justified by the assumption made on it just before. The model propagates the
+// mark through modular products, powers, inverses and reductions, and ModInverse / ExpI / Coprime
+// then skip a coprimality test the solver would have to re-derive multiplication by multiplication.
+func verifMarkUnit(n *numct.Nat, m uint64) {
+	verifNatRec((*saferith.Nat)(n)).um = m
 }
 
 // verifMkScalar: the scalar (-1)^neg * mag.
@@ -534,20 +545,17 @@ func H_paillier_op_hom_T()   { verifOpHom(verifSetupThorough()) }
 
 const verifKBits = 20
 
-// verifScalarPK: PK.CiphertextScalarOp(c,k) = c^k for all c, |k| < 2^20, and the exponents that the
-// SK path hands to saferith (ghost).
+// verifScalarPK: PK.CiphertextScalarOp(c,k) = c^k for all c and all 0 <= k < 2^20, and the exponents
+// that the SK path hands to saferith (ghost).
 func verifScalarPK(e *verifEnv) {
 	cv, c := e.symCt()
-	neg, mag, k := verifSymScalar(verifKBits)
+	mag := verifU64() & (uint64(1)<<verifKBits - 1)
+	k := verifMkScalar(false, mag)
 	verifReach("scalarpk.inputs")
 	a, err := e.pk.CiphertextScalarOp(c, k)
 	verifMust(err)
-	pw := verifPow(cv, mag, e.nn, verifKBits)
-	if neg {
-		verifAssert("scalarpk.negative_times_power_is_one", e.mulNN(verifCtVal(a), pw) == 1)
-	} else {
-		verifAssert("scalarpk.is_power", verifCtVal(a) == pw)
-	}
+	verifAssert("scalarpk.is_power", verifCtVal(a) == verifPow(cv, mag, e.nn, verifKBits))
+	verifAssertGhost("scalarpk.model_exact_pk", verifEscaped == 0)
 	// ghost: what the secret-key route exponentiates with
 	verifExpLog = nil
 	verifExpLogOn = true
@@ -574,6 +582,17 @@ func verifScalarPK(e *verifEnv) {
 	verifAssertGhost("scalarpk.sk_exponent_mod_q2_is_whole_k", okQ == 1)
 	verifAssertGhost("scalarpk.sk_two_exponentiations", cnt == 2)
 	verifAssertGhost("scalarpk.model_exact", verifEscaped == 0)
+}
+
+// verifScalarPKNeg: PK.CiphertextScalarOp(c,-k) * c^k = 1 for all c and all k < 2^kbits.
+func verifScalarPKNeg(e *verifEnv, kbits uint) {
+	cv, c := e.symCt()
+	mag := verifU64() & (uint64(1)<<kbits - 1)
+	verifReach("scalarpkneg.inputs")
+	a, err := e.pk.CiphertextScalarOp(c, verifMkScalar(true, mag))
+	verifMust(err)
+	verifAssert("scalarpkneg.times_power_is_one", e.mulNN(verifCtVal(a), verifPow(cv, mag, e.nn, int(kbits))) == 1)
+	verifAssertGhost("scalarpkneg.model_exact", verifEscaped == 0)
 }
 
 // verifKList: scalar magnitudes around the bit widths of N and N^2 and far beyond.
@@ -604,12 +623,17 @@ func verifScalarA(e *verifEnv, thorough bool) {
 
 func verifCList(e *verifEnv) []uint64 { return []uint64{2, e.n + 1, e.nn - 1, e.n + 2} }
 
-// verifScalarB: SK = PK for c from the list, all |k| < 2^20.
-func verifScalarB(e *verifEnv) {
+// verifScalarB: SK = PK for c from the list and all scalars 0 <= k < 2^20, and all -2^nbits < k < 0.
+func verifScalarB(e *verifEnv, nbits uint) {
 	cs := verifCList(e)
 	cv := cs[verifLen(0, len(cs)-1)]
 	c := e.ct(cv)
-	_, _, k := verifSymScalar(verifKBits)
+	neg := verifLen(0, 1) == 1
+	kb := uint(verifKBits)
+	if neg {
+		kb = nbits
+	}
+	k := verifMkScalar(neg, verifU64()&(uint64(1)<<kb-1))
 	verifReach("scalarb.inputs")
 	a, err := e.pk.CiphertextScalarOp(c, k)
 	verifMust(err)
@@ -672,17 +696,19 @@ func verifScalarHom(e *verifEnv, thorough bool) {
 	verifAssertGhost("scalarhom.model_exact", verifEscaped == 0)
 }
 
-func H_paillier_scalar_pk()    { verifScalarPK(verifSetup(5, 7)) }
-func H_paillier_scalar_a()     { verifScalarA(verifSetup(5, 7), false) }
-func H_paillier_scalar_b()     { verifScalarB(verifSetup(5, 7)) }
-func H_paillier_scalar_c()     { verifScalarC(verifSetup(5, 7)) }
-func H_paillier_scalar_hom()   { verifScalarHom(verifSetup(5, 7), false) }
-func H_paillier_scalar_pk_T()  { verifScalarPK(verifSetupThorough()) }
-func H_paillier_scalar_a_T()   { verifScalarA(verifSetupThorough(), true) }
-func H_paillier_scalar_a_T35() { verifScalarA(verifSetup(5, 7), true) }
-func H_paillier_scalar_b_T()   { verifScalarB(verifSetupThorough()) }
-func H_paillier_scalar_c_T()   { verifScalarC(verifSetupThorough()) }
-func H_paillier_scalar_hom_T() { verifScalarHom(verifSetupThorough(), true) }
+func H_paillier_scalar_pk()      { verifScalarPK(verifSetup(5, 7)) }
+func H_paillier_scalar_a()       { verifScalarA(verifSetup(5, 7), false) }
+func H_paillier_scalar_b()       { verifScalarB(verifSetup(5, 7), 6) }
+func H_paillier_scalar_pkneg()   { verifScalarPKNeg(verifSetup(5, 7), 6) }
+func H_paillier_scalar_c()       { verifScalarC(verifSetup(5, 7)) }
+func H_paillier_scalar_hom()     { verifScalarHom(verifSetup(5, 7), false) }
+func H_paillier_scalar_pk_T()    { verifScalarPK(verifSetupThorough()) }
+func H_paillier_scalar_a_T()     { verifScalarA(verifSetupThorough(), true) }
+func H_paillier_scalar_a_T35()   { verifScalarA(verifSetup(5, 7), true) }
+func H_paillier_scalar_b_T()     { verifScalarB(verifSetupThorough(), 8) }
+func H_paillier_scalar_pkneg_T() { verifScalarPKNeg(verifSetupThorough(), 8) }
+func H_paillier_scalar_c_T()     { verifScalarC(verifSetupThorough()) }
+func H_paillier_scalar_hom_T()   { verifScalarHom(verifSetupThorough(), true) }
 
 // control: the secret-key scalar operation does NOT agree with the public-key one on the scalar
 // reduced to the bit width of N^2
